@@ -266,6 +266,57 @@ func init() {
 							c.Violation("C17:bits-to-voxels:run-exceeds-the-cell-interval", d)
 						}
 					}},
+				{Name: "voxel-to-bits-lists", Serial: true, Bounds: engine.Bounds{InputDev: -1},
+					Rule: "lists of three vertically stacked voxels (and a coarser voxel containing them) of one column in all 6 orders x ranges x output zooms in one call: the pairs of the call = union of the single-voxel results (relational), no pair twice; non-trivial = distinct (order, range, zoom) whose union has >= 3 cells",
+					Body: func(c *engine.Ctx) {
+						v := []int64{22, 23, 25}[c.In("v", 3)]
+						z := []int64{5, 9, 12}[c.In("outZoom", 3)]
+						rg := c17Ranges[c.In("range", len(c17Ranges))]
+						f0 := ref.AltIndex((rg.min+rg.max)/2, v)
+						vox := []ref.Vox{{H: 6, X: 24, Y: 53, V: v, F: f0}, {H: 6, X: 24, Y: 53, V: v, F: f0 + 1}, {H: 6, X: 24, Y: 53, V: v, F: f0 + 2}, {H: 6, X: 24, Y: 53, V: v - 2, F: f0 >> 2}}
+						perm := [][]int{{0, 1, 2}, {0, 2, 1}, {1, 0, 2}, {1, 2, 0}, {2, 0, 1}, {2, 1, 0}, {0, 2, 3}, {2, 0, 3}, {3, 0, 2}}[c.In("order", 9)]
+						var ids []string
+						want := map[int64]bool{}
+						for _, i := range perm {
+							ids = append(ids, vox[i].Ext())
+							one, err := transform.ConvertExtendedSpatialIDsToQuadkeysAndVerticalIDs([]string{vox[i].Ext()}, 6, z, rg.max, rg.min)
+							if err != nil {
+								c.Skip("conversion-error")
+							}
+							for _, p := range pairsOf(one) {
+								want[p.v] = true
+							}
+						}
+						if len(want) > 4096 {
+							c.Skip("run-longer-than-4096")
+						}
+						gs, err := transform.ConvertExtendedSpatialIDsToQuadkeysAndVerticalIDs(ids, 6, z, rg.max, rg.min)
+						if err != nil {
+							c.Skip("conversion-error")
+						}
+						got := pairsOf(gs)
+						c.Observe("%v %d %v -> %d", ids, z, rg, len(got))
+						if len(want) >= 3 {
+							c.Nontrivial(fmt.Sprint(ids, z, rg))
+						}
+						gm := map[int64]bool{}
+						for _, p := range got {
+							if gm[p.v] {
+								c.Violation("C17:voxel-to-bits:pair-reported-twice-in-one-call", map[string]any{"ids": ids, "zoom": z, "range": fmt.Sprint(rg), "cell": p.v})
+								return
+							}
+							gm[p.v] = true
+						}
+						for k := range want {
+							if !gm[k] {
+								c.Violation("C17:voxel-to-bits:list-result-differs-from-union-of-single-results", map[string]any{"ids": ids, "zoom": z, "range": fmt.Sprint(rg), "missing_cell": k, "got_n": len(gm), "want_n": len(want)})
+								return
+							}
+						}
+						if len(gm) != len(want) {
+							c.Violation("C17:voxel-to-bits:list-result-differs-from-union-of-single-results", map[string]any{"ids": ids, "zoom": z, "range": fmt.Sprint(rg), "got_n": len(gm), "want_n": len(want)})
+						}
+					}},
 				{Name: "bits-to-voxels-lists", Serial: true, Bounds: engine.Bounds{InputDev: -1},
 					Rule: "lists of two bit-form elements in one call: same (zoom, cell) with two different height ranges, different cells with one range, and both orders x output zooms: the result must be the union of the two single-element results (relational); non-trivial = distinct lists whose elements have different ranges",
 					Body: func(c *engine.Ctx) {
